@@ -100,11 +100,35 @@ class JournalFileBackend(BaseJournalBackend):
                     del self._log_number_offset[log_number + 1]
             return logs
 
+    def _truncate_unterminated_tail(self) -> None:
+        # A writer that died in the middle of a write leaves a record without a line separator at
+        # the end of the file. Its call never returned, so the record is dropped; otherwise the next
+        # record would be glued to it and both would be lost (and later reads would fail).
+        # This must be called with the lock held.
+        with open(self._file_path, "rb+") as f:
+            pos = f.seek(0, os.SEEK_END)
+            if pos == 0:
+                return
+            f.seek(pos - 1)
+            if f.read(1) == b"\n":
+                return
+            block = 4096
+            while pos > 0:
+                start = max(0, pos - block)
+                f.seek(start)
+                idx = f.read(pos - start).rfind(b"\n")
+                if idx >= 0:
+                    f.truncate(start + idx + 1)
+                    return
+                pos = start
+            f.truncate(0)
+
     def append_logs(self, logs: list[dict[str, Any]]) -> None:
         with get_lock_file(self._lock):
             what_to_write = (
                 "\n".join([json.dumps(log, separators=(",", ":")) for log in logs]) + "\n"
             )
+            self._truncate_unterminated_tail()
             with open(self._file_path, "ab") as f:
                 f.write(what_to_write.encode("utf-8"))
                 f.flush()
